@@ -122,6 +122,10 @@ func fb() bool            { note("fb"); v := cur.BV[cnt%len(cur.BV)]; cnt++; ret
 func fbs() []byte         { note("fbs"); return []byte(fs()) }
 func fxs() []int          { note("fxs"); return append([]int(nil), cur.XS...) }
 
+type st struct{ n int }
+
+func (r st) add(x int) int { return r.n + x }
+
 func run(f func(in) interface{}, i in) (out string) {
 	logbuf = logbuf[:0]
 	cnt = 0
